@@ -1,0 +1,29 @@
+//go:build verif
+
+// Contracts for the deductive verifier in /verif (comment-only file; see /verif/DESIGN.md).
+package createtopics
+
+//@ property C04
+
+// Wire layout per version, from the Kafka protocol definition of this API (field order, types and the versions each field
+// exists in); the encoders and decoders are compiled from the struct tags, so the tags are checked against it.
+//@ wire Request
+//@   layout v0 Topics []RequestTopic, TimeoutMs int32
+//@   layout v1..v4 Topics []RequestTopic, TimeoutMs int32, ValidateOnly bool
+//@   layout v5 _ struct{} @-1, Topics []RequestTopic, TimeoutMs int32, ValidateOnly bool
+//@ wire RequestTopic
+//@   layout v0..v5 Name string, NumPartitions int32, ReplicationFactor int16, Assignments []RequestAssignment, Configs []RequestConfig
+//@ wire RequestAssignment
+//@   layout v0..v5 PartitionIndex int32, BrokerIDs []int32
+//@ wire RequestConfig
+//@   layout v0..v5 Name string, Value string?
+//@ wire Response
+//@   layout v0..v1 Topics []ResponseTopic
+//@   layout v2..v4 ThrottleTimeMs int32, Topics []ResponseTopic
+//@   layout v5 _ struct{} @-1, ThrottleTimeMs int32, Topics []ResponseTopic
+//@ wire ResponseTopic
+//@   layout v0 Name string, ErrorCode int16
+//@   layout v1..v4 Name string, ErrorCode int16, ErrorMessage string?
+//@   layout v5 Name string, ErrorCode int16, ErrorMessage string?, NumPartitions int32, ReplicationFactor int16, Configs []ResponseTopicConfig
+//@ wire ResponseTopicConfig
+//@   layout v5 Name string, Value string?, ReadOnly bool, ConfigSource int8, IsSensitive bool
